@@ -207,9 +207,21 @@ pub fn decorate(prog: &mut Prog, rng: &mut Rng) {
                 // place the compiler puts Send markers). A marker on the getter itself is outside it: the unchanged
                 // optimiser moves such a marker onto the resolved element node, which other users share.
                 let (s, r) = (rng.below(3), rng.below(3));
-                g.steps.push(Step { op: Operation::NOP, deps: vec![base + 1], gdeps: vec![] });
-                g.node_annotations.push((base + 2, NodeAnnotation::Send(s, r)));
-                keep.push(base + 2);
+                // one time in three (coin from a copy of the stream, so that all other cases of a seed stay as they
+                // were) the marker sits on the getter itself. Only the static promises are decided for such a graph
+                // (check_case): the marker must stay on the image of the node that carried it.
+                let on_getter = {
+                    let mut r2 = rng.clone();
+                    r2.below(3) == 0
+                };
+                if on_getter {
+                    g.node_annotations.push((base + 1, NodeAnnotation::Send(s, r)));
+                    keep.push(base + 1);
+                } else {
+                    g.steps.push(Step { op: Operation::NOP, deps: vec![base + 1], gdeps: vec![] });
+                    g.node_annotations.push((base + 2, NodeAnnotation::Send(s, r)));
+                    keep.push(base + 2);
+                }
             }
             9 if !arrays.is_empty() => {
                 // constants with identical bytes but different shape / signedness feeding non-foldable nodes
@@ -849,6 +861,14 @@ pub fn check_case(case: &Case, kind: &str, run_seed: u64, which: &str, stats: &m
         if let Some(v) = c06_static(&twin, &tv) {
             return Ok(Some(v));
         }
+    }
+    if kind != "compiled" && tv.gu.nodes.iter().any(|n| !n.sends.is_empty() && !matches!(n.op, Operation::NOP)) {
+        // A Send marker on a node other than a NOP (a getter the meta-operation pass resolves): the unchanged optimiser
+        // moves the marker onto the resolved element node, which other users may share, so per-party values of that
+        // element legitimately change and no dynamic twin oracle is sound. The static promises above (the marker stays
+        // on the image, inputs, recorded types, reload) are what is decided for such a graph.
+        stats.probe("c06:static-only(marker on a non-NOP node)", 1);
+        return Ok(None);
     }
     let mut rng = Rng::new(run_seed);
     let nruns = 2;
